@@ -84,6 +84,22 @@ class KwOnly(Exception):
     super().__init__(reason)
     self.reason = reason
 
+class ClassDefault(Exception):
+  """an instance attribute shadowing a class-level default of the same name"""
+  code = 0
+  retries = 3
+  def __init__(self, code):
+    super().__init__('class default')
+    self.code = code
+
+class NewNeedsArg(Exception):
+  """__new__ requires an argument that .args does not carry"""
+  def __new__(cls, a):
+    return super().__new__(cls)
+  def __init__(self, a):
+    super().__init__()
+    self.a = a
+
 class ZeroOrCode(Exception):
   """constructible with no argument or with (code, detail), but NOT from its own .args (a 3-tuple)"""
   def __new__(cls, code=None, detail=''):
@@ -105,7 +121,8 @@ class NeedsArgs(ValueError):
   pass
 '''
 USER_ARGS = {'NeedsArgs': "(7, 'boom')", 'NeedsNewArgs': "(1, 2)", 'Slotted': "([1, 2],)", 'CustomStr': "('v',)",
-             'WithProperty': "(21,)", 'OsChild': "(13, 'denied')", 'KwOnly': "(reason='why')", 'ZeroOrCode': "(5, 'boom')"}
+             'WithProperty': "(21,)", 'OsChild': "(13, 'denied')", 'KwOnly': "(reason='why')", 'ZeroOrCode': "(5, 'boom')",
+             'ClassDefault': "(5,)", 'NewNeedsArg': "(7,)"}
 
 
 def public_attrs(e):
@@ -226,17 +243,33 @@ class ExcEngine(Engine):
     is_exc = isinstance(original, Exception)
     slots = slot_attrs(cls)
     pub = public_attrs(original)
-    try:
-      bare = type('P', (cls,), {'__init__': lambda self: None})()
-      constructible = True
-      bare_vals = {n: getattr(bare, n, '<raises>') for n in slots}
-    except Exception:  # pylint: disable=broad-except
-      constructible = False
-      bare_vals = {}
-    attrs = C.clist(['(%s, %s, %s)' % (C.cstr(n), C.cbool(n in slots),
-                                       C.cbool(bool(n in bare_vals and self.same(bare_vals[n], pub[n]))))
-                     for n in sorted(pub)]) if pub else '(@nil (string * bool * bool))'
-    return '(%s, %s, %s)' % (C.cbool(is_exc), C.cbool(constructible), attrs)
+    args = getattr(original, 'args', ())
+
+    def build(a):
+      try:
+        return type('P', (cls,), {'__init__': lambda self, *x: None})(*a)
+      except TypeError:
+        return None
+    from_args, from_nothing = build(args), build(())
+    bare = from_args if from_args is not None else from_nothing
+    bare_vals = {n: getattr(bare, n, '<raises>') for n in slots} if bare is not None else {}
+    inst = getattr(original, '__dict__', {})
+
+    def class_level(n):
+      for k in cls.__mro__:
+        if n in vars(k):
+          return True, vars(k)[n]
+      return False, None
+
+    def kind(n):
+      if n in slots:
+        return '(ASlot %s)' % C.cbool(bool(n in bare_vals and self.same(bare_vals[n], pub[n])))
+      has, cv = class_level(n)
+      if n in inst:
+        return 'ADictShadow' if (has and not self.same(cv, inst[n])) else 'ADict'
+      return 'AClass'
+    attrs = C.clist(['(%s, %s)' % (C.cstr(n), kind(n)) for n in sorted(pub)]) if pub else '(@nil (string * akind))'
+    return '(%s, (%s, %s), %s)' % (C.cbool(is_exc), C.cbool(from_args is not None), C.cbool(from_nothing is not None), attrs)
 
   @staticmethod
   def same(a, b):
